@@ -586,6 +586,7 @@ pub fn run(ctx: &Ctx, which: Which) -> Report {
     }
     // the same evaluator built with overflow checks and debug assertions
     dev_pass(ctx, which, &mut report);
+    pool_stress(ctx, which, &mut report);
     if thorough {
         // the oracle must reproduce the published category frequencies over all sets
         report.set("oracle_category_frequencies_over_all_sets", Json::arr(set_cat_counts.iter().map(|c| Json::Int(*c as i128))));
@@ -622,6 +623,61 @@ pub fn run(ctx: &Ctx, which: Which) -> Report {
         report.assumptions.push("thorough tier: every one of the C(52,7) sets once in a seed-hashed order; the order dimension (7! per set) is exhausted only for sets_in_all_5040_orders sets".into());
     }
     report
+}
+
+/// Many threads evaluating a small pool of hands over and over, each result compared with the oracle:
+/// evaluation must stay a function of the seven cards when it is called concurrently (a shared memo or
+/// cache inside the evaluator would have to get every concurrent publication right).
+fn pool_stress(ctx: &Ctx, which: Which, report: &mut Report) {
+    if which != Which::C01 {
+        return;
+    }
+    let table = ClassTable::get();
+    let threads = crate::util::threads().max(2);
+    let per_thread: u64 = ctx.tier.pick(600_000, 6_000_000);
+    let mut total = 0u64;
+    for (pi, pool_size) in [2usize, 16, 256, 4096, 65_536].iter().enumerate() {
+        let mut rng = Rng::derive(ctx.seed, "c01-pool", pi as u64);
+        let pool: Vec<([Card; 7], u16, [u8; 7])> = (0..*pool_size)
+            .map(|_| {
+                let s = rng.sample(52, 7);
+                let ids = [s[0] as u8, s[1] as u8, s[2] as u8, s[3] as u8, s[4] as u8, s[5] as u8, s[6] as u8];
+                let cards = [card(ids[0]), card(ids[1]), card(ids[2]), card(ids[3]), card(ids[4]), card(ids[5]), card(ids[6])];
+                (cards, table.class_of(best7(&sorted7(ids))), ids)
+            })
+            .collect();
+        let pool = &pool;
+        let bad: Vec<Vec<(usize, u16)>> = std::thread::scope(|scope| {
+            let mut handles = Vec::new();
+            for t in 0..threads {
+                let seed = ctx.seed;
+                handles.push(scope.spawn(move || {
+                    let mut rng = Rng::derive(seed, "c01-pool-thread", (pi * 1000 + t) as u64);
+                    let mut bad: Vec<(usize, u16)> = Vec::new();
+                    for _ in 0..per_thread {
+                        let i = rng.usize_below(pool.len());
+                        let got = MadeHand::from(pool[i].0).power_index();
+                        if got != pool[i].1 && bad.len() < 8 {
+                            bad.push((i, got));
+                        }
+                    }
+                    bad
+                }));
+            }
+            handles.into_iter().map(|h| h.join().unwrap_or_default()).collect()
+        });
+        total += per_thread * threads as u64;
+        for (i, got) in bad.into_iter().flatten() {
+            let ids = pool[i].2;
+            report.violate(
+                format!("concurrent-eval:{}", cards_text(&ids)),
+                format!("{} evaluates to {} while {} threads evaluate a pool of {} hands concurrently; its class is {}", cards_text(&ids), got, threads, pool_size, pool[i].1),
+                Json::obj().set("kind", Json::str("eval")).set("cards", Json::str(cards_text(&ids))),
+            );
+        }
+    }
+    report.evaluations += total;
+    report.set("concurrent_pool_evaluations", Json::Int(total as i128));
 }
 
 /// The dev-profile batch (runs in a child built with overflow checks and debug assertions):
